@@ -21,7 +21,7 @@ var targetBase = netip.MustParseAddr("127.0.12.2")
 const (
 	pacedWait  = time.Second
 	pacedTries = 3
-	evictSlack = 3 * time.Second // a session must be gone natTimeout + evictSlack after its last client datagram
+	evictSlack = 3 * time.Second // a session must be gone natTimeout + slackFor(natTimeout) after its last client datagram
 )
 
 // stopBound: Run must return within this after cancel; judged only when natTimeout >= 2*stopBound.
@@ -556,7 +556,7 @@ func runPlan(p *plan, workDir string) (out outcome) {
 			// first let everything that exists be evicted, so that the sessions created below are the only ones
 			x.stopStreams()
 			x.stopFloods()
-			if !udpsvc.WaitFor(T+evictSlack, func() bool { return x.sockets() <= x.sIdle }) {
+			if !udpsvc.WaitFor(T+slackFor(T), func() bool { return x.sockets() <= x.sIdle }) {
 				x.miss("idle-session-not-evicted", fmt.Sprintf("before the pack-failure phase: %d sockets, idle level %d (natTimeout %v)", x.sockets(), x.sIdle, T))
 				break
 			}
@@ -585,9 +585,9 @@ func runPlan(p *plan, workDir string) (out outcome) {
 				x.label("pack-fail-session-not-observed")
 				break
 			}
-			if !udpsvc.WaitFor(T+evictSlack, func() bool { return x.sockets() <= x.sIdle }) {
+			if !udpsvc.WaitFor(T+slackFor(T), func() bool { return x.sockets() <= x.sIdle }) {
 				x.miss("unforwardable-session-not-evicted", fmt.Sprintf("%d sessions whose datagrams all fail to pack (%s) were created; %v after their last datagram (natTimeout %v) the process still has %d sockets, idle level %d; relay goroutines:\n%s",
-					ph.N, variant, T+evictSlack, T, x.sockets(), x.sIdle, udpsvc.Summaries(udpsvc.RepoGoroutines())))
+					ph.N, variant, T+slackFor(T), T, x.sockets(), x.sIdle, udpsvc.Summaries(udpsvc.RepoGoroutines())))
 				break
 			}
 			if !udpsvc.WaitFor(3*time.Second, func() bool { return len(udpsvc.RepoGoroutines()) <= x.gIdle }) {
@@ -631,7 +631,7 @@ func runPlan(p *plan, workDir string) (out outcome) {
 			sEst := x.sockets()
 			x.lastFrom = x.snapshotFrom()
 			t0 := time.Now()
-			gone := udpsvc.WaitFor(T+evictSlack, func() bool { return x.sockets() <= x.sIdle })
+			gone := udpsvc.WaitFor(T+slackFor(T), func() bool { return x.sockets() <= x.sIdle })
 			took := time.Since(t0)
 			if !gone {
 				x.miss("idle-session-not-evicted", fmt.Sprintf("%v after the last client datagram (natTimeout %v) the process still has %d sockets, %d without sessions (had %d with sessions); relay goroutines:\n%s",
@@ -854,3 +854,9 @@ func runPlan(p *plan, workDir string) (out outcome) {
 	out.sample = map[string]any{"class": p.class(), "stopMs": D.Milliseconds(), "evictions": x.evictions, "arrivals": len(w.Arrivals())}
 	return
 }
+
+// slackFor is the scheduling allowance on top of the NAT timeout: 3 s plus a tenth of the timeout. The
+// 60 s Shadowsocks 2022 scenario was once judged 3.2 s late on a machine with load > 100 while the
+// evicting goroutine was runnable (a false alarm); the property gives no numeric bound, and a relay
+// that doubles or forgets the timeout is still far outside this allowance.
+func slackFor(T time.Duration) time.Duration { return evictSlack + T/10 }
